@@ -40,9 +40,10 @@ EXHAUSTIVE_NOTE = 'all layouts over {floor, obstacle, wall, exit} of grids 1x1..
 REQUIRED = {'quick': {'obstacles.layouts': 2000, 'obstacles.outcomes': 10000, 'obstacles.completeness': 1500,
                       'teleport.layouts': 1000, 'teleport.with_partner': 300, 'teleport.unpaired': 100,
                       'teleport.not_on_pod': 300, 'seeded.obstacles': 1000, 'seeded.teleport': 300,
-                      'history.obstacle_calls': 500, 'palette_layouts': 200}}
+                      'history.obstacle_calls': 500, 'palette_layouts': 200, 'derived_obstacle_layouts': 100}}
 
 N4 = ((-1, 0), (1, 0), (0, -1), (0, 1))
+OBST = ('MovingObstacle', 'Patrol')
 MAKERS = {'.': Floor, 'o': MovingObstacle, '#': Wall, 'E': Exit, 'k': lambda: Key(Color.RED),
           'R': lambda: Telepod(Color.RED), 'B': lambda: Telepod(Color.BLUE), 'G': lambda: Telepod(Color.GREEN)}
 
@@ -104,8 +105,8 @@ def check_obstacle_outcome(ctx, pre_cells, pre_agent, state, label, payload):
     if len(post) != h or any(len(r) != w for r in post):
         ctx.violation('obstacles', 'move_obstacles.shape', f'{label}: grid shape changed', 'obstacle_case', payload)
         return None
-    old = {(y, x) for y in range(h) for x in range(w) if pre_cells[y][x][0] == 'MovingObstacle'}
-    new = {(y, x) for y in range(h) for x in range(w) if post[y][x][0] == 'MovingObstacle'}
+    old = {(y, x) for y in range(h) for x in range(w) if pre_cells[y][x][0] in OBST}
+    new = {(y, x) for y in range(h) for x in range(w) if post[y][x][0] in OBST}
     floor0 = {(y, x) for y in range(h) for x in range(w) if pre_cells[y][x][0] == 'Floor'}
     floor1 = {(y, x) for y in range(h) for x in range(w) if post[y][x][0] == 'Floor'}
     if len(new) != len(old):
@@ -114,7 +115,7 @@ def check_obstacle_outcome(ctx, pre_cells, pre_agent, state, label, payload):
     for y in range(h):
         for x in range(w):
             a, b = pre_cells[y][x], post[y][x]
-            if a != b and not ({a[0], b[0]} == {'MovingObstacle', 'Floor'}):
+            if a != b and not (a[0] in OBST + ('Floor',) and b[0] in OBST + ('Floor',)):
                 ctx.violation('obstacles', 'move_obstacles.other_cell_changed',
                               f'{label}: cell ({y},{x}) changed {a} -> {b}', 'obstacle_case', payload)
     bad_dest = [q for q in new - old if q not in floor0]
@@ -139,7 +140,7 @@ def obstacle_layout_case(ctx, layout, action=Action.MOVE_FORWARD, limit=20000):
     pre_cells, pre_agent = cells_of(base), enc.ea(base.agent)
     payload = {'layout': [''.join(r) for r in layout], 'action': action.name}
     h, w = len(layout), len(layout[0])
-    old = {(y, x) for y in range(h) for x in range(w) if layout[y][x] == 'o'}
+    old = {(y, x) for y in range(h) for x in range(w) if layout[y][x] in 'op'}
     floor0 = {(y, x) for y in range(h) for x in range(w) if layout[y][x] == '.'}
     dests = set()
     stays = {p: 0 for p in old}
@@ -388,6 +389,8 @@ def install_history_hooks(ctx, patch):
 
 
 def run(ctx):
+    from .. import custom_objects
+    MAKERS['p'] = custom_objects.Patrol  # a moving obstacle of a user-defined derived class
     ctx.extra['exhaustive'] = True
     with reach(ctx, [transition_fs.move_obstacles, transition_fs.teleport]):
         # exhaustive obstacle layouts
@@ -448,6 +451,12 @@ def run(ctx):
                 ctx.hit('palette_layouts')
                 obstacle_layout_case(ctx, layout, rng.choice(list(Action)), limit=3000)
         SHARED[0] = False
+        for k in range(ctx.pick(300, 3000)):  # obstacles of a derived class, alone or mixed with plain ones
+            rng = gen.rng_for('C11derived', ctx.seed, ctx.shard, k)
+            layout = rand_layout(rng, 4, 4, '.p#Eo' if k % 2 else '.p#E', [5, 3, 1, 1, 2][: 5 if k % 2 else 4], 4, o='p')
+            if any('p' in row or 'o' in row for row in layout):
+                ctx.hit('derived_obstacle_layouts')
+                obstacle_layout_case(ctx, layout, rng.choice(list(Action)), limit=3000)
         seeded(ctx, ctx.pick(6000, 300000))
         with Patch() as patch:
             install_history_hooks(ctx, patch)
@@ -456,6 +465,8 @@ def run(ctx):
 
 
 def replay(ctx, kind, payload):
+    from .. import custom_objects
+    MAKERS['p'] = custom_objects.Patrol
     if kind == 'obstacle_case':
         layout = tuple(tuple(r) for r in payload['layout'])
         if 'seed' in payload:
